@@ -30,14 +30,11 @@ End DjInd.
 
 Section Parse.
   Variable num_of : list Z -> res Z.
-  Notation ok := (dj_ok num_of false).
+  Notation ok := (dj_ok num_of).
   Notation pv := (parse_value num_of).
   Notation pa := (parse_array num_of).
   Notation po := (parse_object num_of).
   Notation nt := (next_token num_of).
-
-  Lemma str_ok_no_pair s : str_ok false s = true -> forallb no_pair_ok s = true.
-  Proof. intros H. exact H. Qed.
 
   Lemma trail_ws d : ok d = true -> all_ws (trail d) = true.
   Proof.
@@ -178,7 +175,7 @@ Section Parse.
   Definition em (m : list Z * list dchar * list Z * dj) : list Z * json :=
     match m with (_, k, _, v) => (str_value k, erase v) end.
   Definition mok (m : list Z * list dchar * list Z * dj) : bool :=
-    match m with (w1, k, w2, v) => all_ws w1 && str_ok false k && all_ws w2 && ok v end.
+    match m with (w1, k, w2, v) => all_ws w1 && str_ok k && all_ws w2 && ok v end.
 
   Lemma members_ok : forall ms, Forall (fun m => PV (snd m)) ms -> ms <> [] -> forall f rest,
     forallb mok ms = true -> lt (length (join 44 (map rm ms) ++ 125 :: rest)) f ->
@@ -264,7 +261,7 @@ Section Parse.
 End Parse.
 
 Theorem parse_json_ok_l : forall (num_of : list Z -> res Z) d,
-  dj_ok num_of false d = true ->
+  dj_ok num_of d = true ->
   parse_json num_of (render d) = Ok (erase d, blen (render d) - blen (trail d)) /\ all_ws (trail d) = true.
 Proof.
   intros num_of d Hok. split; [|apply (trail_ws num_of); exact Hok].
@@ -273,11 +270,13 @@ Proof.
   rewrite !app_nil_r in H. rewrite H by lia. reflexivity.
 Qed.
 
-(* F-C32-2: an escaped surrogate pair is JSON (the character U+1F600), and the parser rejects it *)
-Theorem parse_json_pair_refuted_l : forall (num_of : list Z -> res Z),
-  exists d, dj_ok num_of true d = true /\ erase d = JStr [240; 159; 152; 128] /\
-            parse_json num_of (render d) = Err.
-Proof.
-  intros num_of. exists (DStr [CPair 100 56 51 100 100 101 48 48]).
-  split; [reflexivity|]. split; reflexivity.
-Qed.
+(* an escaped surrogate pair is read as the one character it stands for (was F-C32-2, fixed in 456f370);
+   an unpaired surrogate escape is rejected *)
+Lemma parse_json_pair_l : forall (num_of : list Z -> res Z),
+  let d := DStr [CPair 100 56 51 100 100 101 48 48] in
+  dj_ok num_of d = true /\ render d = [34; 92; 117; 100; 56; 51; 100; 92; 117; 100; 101; 48; 48; 34] /\
+  parse_json num_of (render d) = Ok (JStr [240; 159; 152; 128], 14) /\
+  parse_json num_of [34; 92; 117; 100; 56; 48; 48; 34] = Err /\
+  parse_json num_of [34; 92; 117; 100; 56; 48; 48; 92; 117; 48; 48; 52; 49; 34] = Err /\
+  parse_json num_of [34; 92; 117; 100; 99; 48; 48; 34] = Err.
+Proof. intros num_of. repeat split; reflexivity. Qed.
